@@ -72,7 +72,7 @@ def behaviours_script(cfgs, beh, path, select=None, mode="handler"):
                 if key in seen:
                     continue
                 seen.add(key)
-                f.write(json.dumps({"n": "Eval", "mode": mode, "pre": [], "argv": b["words"], "cmd": [],
+                f.write(json.dumps({"n": "Eval", "mode": mode, "presrc": "none", "filetext": [], "envstr": [], "argv": b["words"], "cmd": [],
                                     "tag": {"k": "model", "valid": b["valid"]}}) + "\n")
                 n += 1
     return n
